@@ -263,11 +263,15 @@ func (m *xdsResourceManager) updateMeta(rType xdsresource.ResourceType, version 
 			mt.Version = version
 			mt.UpdateTime = updateTime
 		} else {
-			m.meta[rType][name] = &xdsresource.ResourceMeta{
+			mt := &xdsresource.ResourceMeta{
 				Version:        version,
 				UpdateTime:     updateTime,
 				LastAccessTime: atomic.Value{},
 			}
+			// a resource that is never looked up after it has been cached must still expire:
+			// its idle time counts from the moment it entered the cache.
+			mt.LastAccessTime.Store(updateTime)
+			m.meta[rType][name] = mt
 		}
 	}
 }
